@@ -63,6 +63,31 @@ CHECKS = {
              "completed nodes (blobs are self-describing terms) and sync_paths never, that dds' evaluation context is cleared, "
              "and that the following evaluations return the reference value and execute exactly what the spec predicts.",
         design_ref="DESIGN.md 5 C10"),
+    "C11": dict(
+        engine="tlc-design+tlc-generate",
+        technique="TLA+ spec DdsEval: order-free well-formedness predicates (Overlap on segment sequences, Cyclic on the call "
+                  "relation, NestedEval) and action property RejectClean checked by TLC; every generated ill-formed shape "
+                  "(all orders / placements / cycle lengths / edge kinds) replayed, error code, execution log and store "
+                  "operations compared",
+        text="The spec's Analyse step rejects an evaluation iff its set of kept paths contains a strict segment-wise prefix pair, "
+             "its call relation has a cycle, or it reaches a nested dds.eval, and a rejection changes nothing (RejectClean, TLC). "
+             "A generator enumerates path sets (with and without prefix pairs) in every call order x 3 placements, cycles of "
+             "length 1..4 through calls / keeps / references / methods entered on the cycle or from above, dds.eval nested at "
+             "depth 1..3; each is evaluated on a fresh and on a populated store: the DDSException's error_code must be the "
+             "spec's, no user function may run, no blob or path may be written; well-formed neighbours must evaluate.",
+        design_ref="DESIGN.md 5 C11"),
+    "C14": dict(
+        engine="tlc-design+tlc-generate",
+        technique="TLA+ spec DdsEval: functions of non-accepted modules enter cones by name only (IsExtCall), data functions there "
+                  "are refused (NotAccepted); TLC-checked; generated edit histories on both sides of the boundary replayed "
+                  "under package depth x accepted-prefix depth x number of accepted packages x import form",
+        text="In the spec an edit of non-accepted code changes no cone and an edit of any reachable accepted function or tracked "
+             "variable changes the cones above it (TLC: Sound/RetCorrect/NoRecompute/EnvIndependent with S.untracked). The "
+             "generated histories are replayed with the package nested 1..7 levels deep, the accepted prefix at depth 1..6, "
+             "1..40 accepted packages and four import forms: values, execution log and signatures must follow the spec, and a "
+             "data function of a non-accepted module (as root or called from accepted code) must be refused with a "
+             "DDSException naming the module.",
+        design_ref="DESIGN.md 5 C14"),
     "C15": dict(
         engine="tlc-design+tlc-generate",
         technique="TLA+ spec DdsEval: EvalBegin takes a stage prefix; action properties DryRun/DryRunPure checked by TLC; generated "
